@@ -27,4 +27,7 @@ def run(ctx):
     ctx.rule("R-LOCAL-DEFINED", "no path of an ECU function reads a local before assigning it (an exception in the timer pass ends the job thread)", floor=15)
     GN.local_defined(ctx, [f for f in ctx.prog.funcs.values() if f.cls is not None and f.cls.name == "ElectronicControlUnit"],
                      why=" - raised in the timer pass it ends the job thread and no timer fires any more")
+    from rules import ca as _CA
+    ctx.rule("R-CA-REGISTRY", "the CA's add_timer / remove_timer / subscribe / unsubscribe hand their callback on to the ECU", floor=4)
+    _CA.ca_registry_steps(ctx, which=("add_timer", "remove_timer", "subscribe", "unsubscribe"))
     return "registry iteration/removal discipline and timer arithmetic of ElectronicControlUnit"
